@@ -437,6 +437,15 @@ def run(ctx):
         bs = [(k, GRID_BOXES[j]) for k, j in enumerate(c)]
         cases.append(('grid3', 'int', bs, queries_for(rng, bs, 7, 'int')))
 
+    # ---- large leaves: more than 256 boxes that all contain the split centre end up in ONE leaf (counts beyond the
+    # small-integer cache, beyond typical recursion/size shortcuts): nested, duplicate and random-around-a-point ----
+    for n in (257, 300, 513):
+        nested = [(k, (-k - 1, -k - 1, k + 1, k + 1)) for k in range(n)]
+        cases.append(('bigleaf', 'int', nested, queries_for(rng, nested[:40], 4, 'int') + [(0, 0, 0, 0), (-n - 5, -n - 5, -n - 2, n + 5)]))
+    dup = [(k, (2, 3, 7, 5)) for k in range(300)]
+    cases.append(('bigleaf', 'int', dup, [(0, 0, 1, 1), (7, 5, 9, 9), (3, 4, 3, 4)]))
+    around = [(k, (-rng.randint(1, 50), -rng.randint(1, 50), rng.randint(1, 50), rng.randint(1, 50))) for k in range(280)]
+    cases.append(('bigleaf', 'int', around, queries_for(rng, around[:40], 5, 'int')))
     # ---- random ----
     for _ in range(ctx.n(1400)):
         kind = rng.choice(['int', 'frac', 'frac'])
